@@ -14,7 +14,7 @@ CONSTANTS
   SetMaxSet = {1}
   AdvSet = {}
   Budget = 2
-  Ops = {"insert", "wait", "clear", "close", "get", "remove"}
+  Ops = {"insert", "wait", "clear", "close", "get", "remove", "drop"}
   TickOn = FALSE
   MaxNow = 0
 INVARIANTS UsedIsSum Bounded Agree Conservation NeverTwice NothingLost ResidentOwned IndexExact NoOrphan MetricsLaws MetricsCounts NoLoss CondNeverCreates ClearEmpties ChargeFormula
